@@ -1,3 +1,66 @@
-From EN Require Import Lib.Bytes.
-Theorem placeholder_c07 : True. Proof. exact I. Qed.
-Print Assumptions placeholder_c07.
+(* C07 — receive buffering is bounded by the configured limit (separator-framed readers, copying path fully;
+   buffer-filling path: the allocation is the bound by construction, acceptance proved in the safe band). *)
+From Coq Require Import List Arith.
+From EN Require Import Lib.Bytes Frame.Framer Frame.ReadUntil Frame.BufReadUntil Stream.Consumer Stream.SpecDecode
+  Proofs.ReadUntil_proofs Proofs.C07_proofs.
+Import ListNotations.
+
+(* Whatever bytes arrive, in whatever non-empty chunks (no assumption on the stream at all: oversized, malformed,
+   unterminated), after each receive round the copying consumer holds no leftover buffer and its suspended generator
+   holds a separator-free tail of at most limit + seplen - 1 bytes: a peer that never completes a frame cannot make
+   the receiver keep more than the limit plus one separator between reads (plus the read itself during a call). *)
+Theorem held_bound_copying :
+  forall (P : Type) (sep : bytes) (limit : nat) (keep_end : bool) (dec : decoder P),
+    sep <> [] ->
+    forall (chunks : list bytes) (fuel : nat),
+      Forall (fun ch => ch <> []) chunks -> length (concat chunks) < fuel ->
+      exists c' evs,
+        cdeliver (ru_framer sep limit keep_end dec) fuel (cinit _) chunks = (c', evs) /\
+        cbuf c' = [] /\
+        match ccons c' with
+        | Some (Some (buf, _)) => length buf + 1 <= limit + length sep /\ find0 sep buf = None
+        | _ => True
+        end.
+Proof. intros P sep limit keep_end dec Hne chunks fuel. exact (held_bound_copying_l sep limit keep_end dec Hne chunks fuel). Qed.
+Print Assumptions held_bound_copying.
+
+(* Unterminated data longer than limit + seplen - 1 always raises the limit error, whatever the chunking. *)
+Theorem overrun_is_raised_copying :
+  forall (P : Type) (sep : bytes) (limit : nat) (keep_end : bool) (dec : decoder P),
+    sep <> [] ->
+    forall (chunks : list bytes) (fuel : nat),
+      Forall (fun ch => ch <> []) chunks ->
+      find0 sep (concat chunks) = None ->
+      limit + length sep < length (concat chunks) + 1 ->
+      exists c' evs, cdeliver (ru_framer sep limit keep_end dec) fuel (cinit _) chunks = (c', RErr ELimit :: evs).
+Proof. intros P sep limit keep_end dec Hne chunks fuel. exact (overrun_raised_l sep limit keep_end dec Hne chunks fuel). Qed.
+Print Assumptions overrun_is_raised_copying.
+
+(* Conversely a stream all of whose frames are within the limit (copying path: payload <= limit) is never rejected
+   for its size, whatever the chunking: no limit error among the delivered events. *)
+Theorem safe_never_rejected_copying :
+  forall (P : Type) (sep : bytes) (limit : nat) (keep_end : bool) (dec : decoder P),
+    sep <> [] ->
+    forall (chunks : list bytes) (fuel : nat),
+      Forall (fun ch => ch <> []) chunks -> safe sep limit (concat chunks) -> length (concat chunks) < fuel ->
+      exists c' evs, cdeliver (ru_framer sep limit keep_end dec) fuel (cinit _) chunks = (c', evs) /\ ~ In (RErr ELimit) evs.
+Proof. intros P sep limit keep_end dec Hne chunks fuel. exact (safe_never_rejected_copying_l sep limit keep_end dec Hne chunks fuel). Qed.
+Print Assumptions safe_never_rejected_copying.
+
+(* Buffer-filling path: frames with payload + separator < limit are never rejected, for every delivery pattern and
+   buffer-size hint. *)
+Theorem safe_never_rejected_buffered :
+  forall (P : Type) (sep : bytes) (limit sizehint : nat) (keep_end : bool) (dec : decoder P),
+    sep <> [] -> length sep + 1 <= limit ->
+    forall (chunks : list bytes) (fuel : nat),
+      safe sep (limit - 1 - length sep) (concat chunks) -> length (concat chunks) < fuel ->
+      exists c' evs, bcdeliver (bru_framer sep limit keep_end dec) sizehint fuel (bcinit _) chunks = (c', evs) /\
+                     ~ In (RErr ELimit) evs.
+Proof. intros P sep limit sizehint keep_end dec Hne Hl chunks fuel. exact (safe_never_rejected_buffered_l sep limit sizehint keep_end dec Hne Hl chunks fuel). Qed.
+Print Assumptions safe_never_rejected_buffered.
+
+(* non-vacuity / tightness witnesses *)
+Example overrun_witness :
+  exists c' evs, cdeliver (ru_framer [10%N] 3 false (fun b : bytes => Some b)) 20 (cinit _) [[1; 2]; [3; 4]; [5]]%N
+                 = (c', RErr ELimit :: evs).
+Proof. eexists; eexists. vm_compute. reflexivity. Qed.
